@@ -370,6 +370,10 @@ func Execute(s *Schedule, opt ExecOpts) (res *RunResult) {
 			res.TraceLines = e.lines
 		}
 	}()
+	if keeper.EnableAddAllowedBidder {
+		// this process links the application like cmd/fundraisingd does and was built without the testing link flag
+		res.addV("C10", "default_build.switch_on", "process", "keeper.EnableAddAllowedBidder is true in a build that does not pass the documented testing link flag", 0, -1)
+	}
 	e.actors = MakeActors(s.Cfg.Actors)
 	mbal, ibal := parseBalances(&s.Cfg, e.actors)
 	for i := range e.actors {
@@ -662,26 +666,46 @@ func (e *execState) runBlock(bi int, blk *Block, prev *Snap) (*blockObs, bool) {
 		r := br.Resp.TxResults[i]
 		obs[i].Code, obs[i].Log, obs[i].Events = r.Code, r.Log, r.Events
 	}
+	// Identical bytes can occur several times in a block (a duplicate, or a stale-sequence copy that
+	// later becomes valid). Only one inclusion can pass the ante chain (the sequence), so the calls made
+	// under that hash belong to the accepted inclusion, else to the one that got furthest (message-level
+	// rejection), else to the first.
+	owner := func(hash string) int {
+		idxs := byHash[hash]
+		if len(idxs) == 0 {
+			return -1
+		}
+		for _, i := range idxs {
+			if obs[i].Code == 0 {
+				return i
+			}
+		}
+		for _, i := range idxs {
+			if !obs[i].Model.AnteFail && !obs[i].Model.Basic {
+				return i
+			}
+		}
+		return idxs[0]
+	}
 	for _, c := range br.Calls {
 		switch c.Phase {
 		case "begin":
 			bo.Begin = append(bo.Begin, c)
 		case "tx":
-			// attribute to the first copy whose execution could have made calls: duplicates are ante-rejected
-			if idxs := byHash[c.TxHash]; len(idxs) > 0 {
-				obs[idxs[0]].Calls = append(obs[idxs[0]].Calls, c)
+			if i := owner(c.TxHash); i >= 0 {
+				obs[i].Calls = append(obs[i].Calls, c)
 				if c.Injected {
-					obs[idxs[0]].Injected = true
+					obs[i].Injected = true
 				}
 			}
 		}
 	}
 	for _, h := range br.Hooks {
 		if h.Phase == "tx" {
-			if idxs := byHash[h.TxHash]; len(idxs) > 0 {
-				obs[idxs[0]].Hooks = append(obs[idxs[0]].Hooks, h)
+			if i := owner(h.TxHash); i >= 0 {
+				obs[i].Hooks = append(obs[i].Hooks, h)
 				if h.Injected {
-					obs[idxs[0]].Injected = true
+					obs[i].Injected = true
 				}
 			}
 		}
